@@ -58,6 +58,13 @@ Definition has_int_const (P : program) : bool :=
                     existsb (fun l => match l with LPos a => atom_int_const a | LNeg a => atom_int_const a | LCmp _ _ _ => false end)
                             (cbody c)) P.
 
+(* a self-recursive relation whose closure contains a cycle (a tuple r(x, x)) *)
+Definition cyclic_recursion (P : program) (M : db) : bool :=
+  existsb (fun c =>
+    let q := arel (chead c) in
+    existsb (fun l => match l with LPos a => N.eqb (arel a) q | _ => false end) (cbody c) &&
+    existsb (fun t => match t with [x; y] => value_eqb x y | _ => false end) (rel_tuples M q)) P.
+
 (* model of the backward chainer vs the implementation's trees (library paths: the context is
    identical on both sides; on the Handler path the order of the engine's derived tuples is
    not observable, so only the validator runs there) *)
